@@ -7,8 +7,31 @@ TRUSTED_BASE = ec.TB + ["Properties/C03_Stack.v: the explicit-stack machine (Mod
 ASSUMPTIONS = ec.ASSUME
 RULE = ("case = random or structured propagator-level model (1-5 variables with holes/negatives/singletons, 0-4 propagators with views) "
         "run through enumerate to exhaustion; the yielded sequence must equal the model's sequence exactly and, as a set without "
-        "repetition, the brute-force solution set computed from the Coq `sat`; non-trivial = at least one solution or a failure")
+        "repetition, the brute-force solution set computed from the Coq `sat`; non-trivial = at least one solution or a failure; family enum_large: 10^4..10^5 assignments with no limit configured, far beyond the engine's periodic limit check")
+def gen_large(tier, rng):
+    """enumerations far beyond the engine's periodic limit check (every 10 000 loop turns, Generated/Consts.v
+    engine_check_interval) with NO limit configured: the check must be a no-op, every right branch still on the stack must be
+    explored.  4-6 variables, 10^4 .. 10^5 assignments, at most two loose constraints."""
+    cases = []
+    for _ in range(16 if tier == "quick" else 120):
+        while True:
+            nv = rng.choice([4, 5, 5, 6])
+            sizes = [rng.choice([2, 3, 4, 6, 8, 10, 12]) for _ in range(nv)]
+            prod = 1
+            for z in sizes: prod *= z
+            if 12000 <= prod <= 120000: break
+        doms = []
+        for z in sizes:
+            lo = rng.randint(-4, 3); doms.append("%d..%d" % (lo, lo + z - 1))
+        props = []
+        for _ in range(rng.choice([0, 1, 1, 2])):
+            a, b = rng.sample(range(nv), 2)
+            props.append(rng.choice(["neq x%d x%d", "leq x%d x%d", "neq x%d x%d"]) % (a, b))
+        cases.append(" ; ".join(["|".join(doms)] + props + ["enum"]))
+    return cases
+
 FAMILIES = [
     Family("enum_random", "solve", ec.gen_models(ec.entry_enum, 3000, 600000), nontrivial=ec.nontrivial_solve, prop_judge=plevel.judge_solve),
+    Family("enum_large", "solve", gen_large, nontrivial=ec.nontrivial_solve, prop_judge=plevel.judge_solve),
     Family("enum_structured", "solve", lambda tier, rng: [c for c in ec.structured(tier, rng) if c.endswith("enum")], nontrivial=ec.nontrivial_solve, prop_judge=plevel.judge_solve),
 ]
